@@ -202,6 +202,8 @@ def project(c, inv, M):
 
     def art(a):
         return {"k": "a", "title": nm(a.title), "rev": nm(a.revision), "dt": nm(a.displaytitle)}
+    if type(c) is not mbm.Collection:
+        return {"k": "?" + type(c).__name__}
     items = []
     for it in c.items:
         if type(it) is mbm.Article:
@@ -211,8 +213,6 @@ def project(c, inv, M):
                           "items": [art(a) if type(a) is mbm.Article else {"k": "?" + type(a).__name__} for a in it.items]})
         else:
             items.append({"k": "?" + type(it).__name__})
-    if type(c) is not mbm.Collection:
-        return {"k": "?" + type(c).__name__}
     return {"title": nm(c.title), "items": items, "subtitle": nm(c.subtitle), "editor": nm(c.editor)}
 
 
@@ -304,6 +304,7 @@ def check_state(st, cz, inv, M):
                 "built %r" % (p,))
         if [inv.get(a.title) for a in x.get_articles()] != flat_titles(want):
             bad("construct: get_articles() order", "got %r" % ([a.title for a in x.get_articles()],))
+        pub_x = public(x, M)
         # ---- round trip and fixed point, for each serialiser the code offers
         for name, dumps in (("myjson.dumps", lambda o: mj.dumps(o)),
                             ("myjson.dumps(sort_keys)", lambda o: mj.dumps(o, sort_keys=True)),
@@ -313,9 +314,9 @@ def check_state(st, cz, inv, M):
             p = project(y, inv, M)
             if p != want:
                 bad("roundtrip %s: loads(dumps(x)) differs at %s" % (name, first_diff(p, want)), "reloaded %r from %s" % (p, t1[:300]))
-            elif public(x, M) != public(y, M):
-                bad("roundtrip %s: attributes differ at %s" % (name, first_diff(public(y, M), public(x, M), "obj")),
-                    "x=%r y=%r" % (public(x, M), public(y, M)))
+            elif type(y) is mbm.Collection and pub_x != public(y, M):
+                bad("roundtrip %s: attributes differ at %s" % (name, first_diff(public(y, M), pub_x, "obj")),
+                    "x=%r y=%r" % (pub_x, public(y, M)))
             if type(y) is mbm.Collection and [inv.get(a.title) for a in y.get_articles()] != flat_titles(want):
                 bad("roundtrip %s: get_articles() order" % name, "got %r" % ([a.title for a in y.get_articles()],))
             t2 = dumps(y)
@@ -350,9 +351,10 @@ def check_state(st, cz, inv, M):
         # ---- the collection id of this request
         with _Quiet():
             ids = (M["nserve"].make_collection_id(dict(req)), M["serve"].make_collection_id(dict(req)))
-            again = (M["nserve"].make_collection_id(dict(req)), M["serve"].make_collection_id(dict(req)))
-        if ids != again:
-            bad("id: not deterministic for one request", "%r then %r" % (ids, again))
+            if len(req["metabook"]) % 8 == 0:       # one request in eight is submitted twice
+                again = (M["nserve"].make_collection_id(dict(req)), M["serve"].make_collection_id(dict(req)))
+                if ids != again:
+                    bad("id: not deterministic for one request", "%r then %r" % (ids, again))
         if not (M["nserve"].collection_id_rex.match(ids[0]) and M["serve"].collection_id_rex.match(ids[1])):
             bad("id: malformed", repr(ids))
         return ids, problems
@@ -387,24 +389,33 @@ def _worker(arg):
 
 
 def parse_graph(out, ctx):
-    """States and edges from TLC's raw output (states interned by their JSON text)."""
-    states, index, edges, seeds = [], {}, [], []
+    """States and edges from TLC's raw output.  States are interned by their canonical JSON text;
+    a cache on the raw text TLC printed avoids decoding the same state again and again."""
+    states, index, edges, seeds, raw = [], {}, [], [], {}
 
-    def intern(s):
-        k = json.dumps(s, sort_keys=True)
-        i = index.get(k)
+    def intern(txt):
+        i = raw.get(txt)
         if i is None:
-            i = index[k] = len(states)
-            states.append(s)
+            s = json.loads(txt)
+            k = json.dumps(s, sort_keys=True)
+            i = index.get(k)
+            if i is None:
+                i = index[k] = len(states)
+                states.append(s)
+            raw[txt] = i
         return i
     for ln in out.splitlines():
         if not ln.startswith('"@#'):
             continue
-        e = json.loads(json.loads(ln)[2:])
-        if "seed" in e:
-            seeds.append(intern(e["seed"]))
-        else:
-            edges.append((tuple(e["a"]), e["n"], intern(e["s"]), intern(e["d"])))
+        t = json.loads(ln)[2:]
+        if t.startswith('{"seed":'):
+            seeds.append(intern(t[len('{"seed":'):-1]))
+            continue
+        ps, pd = t.find(',"s":{'), t.find(',"d":{')
+        if not (t.startswith('{"a":') and 0 < ps < pd and t.endswith("}")):
+            ctx.machinery("unexpected transition line from TLC: %s" % t[:200])
+        head = json.loads(t[:ps] + "}")
+        edges.append((tuple(head["a"]), head["n"], intern(t[ps + 5:pd]), intern(t[pd + 5:-1])))
     return states, edges, seeds
 
 
@@ -568,7 +579,7 @@ def run(ctx):
     cz, _ = make_cz(ctx.seed)
     n_edges = totals.get("bfs_rep_edges", 0) + totals.get("bfs_content_edges", 0) + totals.get("sim_rep_edges", 0) + totals.get("sim_content_edges", 0)
     n_states = totals.get("bfs_states_executed", 0) + totals.get("sim_states_executed", 0)
-    if n_edges == 0 or n_states == 0:
+    if (n_edges == 0 or n_states == 0) and not ctx.violations and not ctx.known_hits:
         ctx.machinery("nothing was executed against the implementation")
     ctx.set_cover(states=tot_states, transitions=tot_trans, traces_validated_against_impl=n_edges,
                   evaluations=n_states, distinct_nontrivial=totals.get("bfs_distinct_contents", 0) + totals.get("sim_distinct_contents", 0),
